@@ -304,6 +304,36 @@ func init() {
 }
 
 func scenC05Refused(k *K) {
+	c, must, refused, tainted := refusedAncestorHistory(k, "C05")
+	c.Down(1, k.C.Chance(1, 2))
+	if err := c.Up(1); err != nil {
+		k.Failf("C05/restart-load-error", "restart of R failed: %v", err)
+	}
+	R := c.Stores[1]
+	have := LogHashSet(R)
+	for h := range must {
+		if !have[h] {
+			k.Failf("C05/recover/acked-entry-lost", "after the restart R lacks %s, which it had acknowledged (its own write, or reported as replicated); %d entries of the misbehaving writer with a refused entry in their ancestry had been merged; recovered %d entries: %v", c.nameOf(h), tainted, len(have), LogNames(R))
+		}
+	}
+	for h := range refused {
+		if have[h] {
+			k.Failf("C05/recover/phantom-entry", "after the restart R holds an entry every replica must refuse (it was named by a valid entry of an authorised writer)")
+		}
+	}
+	if wr := c.RandomWrite(1); wr == nil {
+		k.W.Stat("post-restart-write-refused")
+	}
+	k.Notes["tainted_merged"] = tainted
+	k.Notes["nontrivial"] = tainted > 0
+	c.CloseAll()
+}
+
+// refusedAncestorHistory builds, on replica R (node 1) of a two-replica cluster, a log in which
+// valid entries of a misbehaving authorised writer name (in next or refs) entries that every
+// replica refuses. Returns the cluster, what R acknowledged, the refused hashes and how many
+// entries with a refused entry in their ancestry R merged; the world is at rest.
+func refusedAncestorHistory(k *K, prop string) (*Cluster, map[string]bool, map[string]bool, int) {
 	adv := k.NewAdversary()
 	typ := []string{"keyvalue", "eventlog"}[k.C.Intn(2)]
 	c := k.NewCluster(ClusterCfg{N: 2, Type: typ, Writers: []int{0, 1}, ExtraIDs: []string{adv.Own.ID}})
@@ -333,6 +363,7 @@ func scenC05Refused(k *K) {
 		}
 	}()
 	tainted := 0
+	advClock := 0 // the misbehaving writer's Lamport times grow: two entries with one writer and one time have no defined order
 	for i, m := 0, k.C.Range(1, 4); i < m; i++ {
 		c.RandomWrite(0)
 		k.Steps(k.C.Intn(6))
@@ -348,6 +379,10 @@ func scenC05Refused(k *K) {
 		for _, h := range c.Stores[0].OpLog().Heads().Slice() {
 			heads = append(heads, h.GetHash())
 		}
+		if maxT < advClock {
+			maxT = advClock
+		}
+		advClock = maxT + 2
 		key := "z"
 		payload, _ := operation.NewOperation(&key, "PUT", []byte(fmt.Sprintf("bad-%d", a))).Marshal()
 		if typ == "eventlog" {
@@ -399,29 +434,8 @@ func scenC05Refused(k *K) {
 	mu.Unlock()
 	for h := range refused {
 		if LogHashSet(R)[h] {
-			k.Failf("C05/recover/phantom-entry", "before the restart: R holds an entry every replica must refuse")
+			k.Failf(prop+"/phantom-entry-before-restart", "before the restart: R holds an entry every replica must refuse")
 		}
 	}
-	c.Down(1, k.C.Chance(1, 2))
-	if err := c.Up(1); err != nil {
-		k.Failf("C05/restart-load-error", "restart of R failed: %v", err)
-	}
-	R = c.Stores[1]
-	have := LogHashSet(R)
-	for h := range must {
-		if !have[h] {
-			k.Failf("C05/recover/acked-entry-lost", "after the restart R lacks %s, which it had acknowledged (its own write, or reported as replicated); %d entries of the misbehaving writer with a refused entry in their ancestry had been merged; recovered %d entries: %v", c.nameOf(h), tainted, len(have), LogNames(R))
-		}
-	}
-	for h := range refused {
-		if have[h] {
-			k.Failf("C05/recover/phantom-entry", "after the restart R holds an entry every replica must refuse (it was named by a valid entry of an authorised writer)")
-		}
-	}
-	if wr := c.RandomWrite(1); wr == nil {
-		k.W.Stat("post-restart-write-refused")
-	}
-	k.Notes["tainted_merged"] = tainted
-	k.Notes["nontrivial"] = tainted > 0
-	c.CloseAll()
+	return c, must, refused, tainted
 }
